@@ -1000,7 +1000,13 @@ class Sense(_Relatable):
             Word('pwn-spigot-n')
 
         """
-        return self._wordnet.word(id=self._entry_id)
+        iterable = find_entries(
+            id=self._entry_id, lexicon_rowids=self._get_declaring_lexicon_ids()
+        )
+        try:
+            return Word(*next(iterable), self._wordnet)
+        except StopIteration:
+            raise wn.Error(f'no such lexical entry: {self._entry_id}') from None
 
     def synset(self) -> Synset:
         """Return the synset of the sense.
@@ -1011,7 +1017,26 @@ class Sense(_Relatable):
             Synset('pwn-03325088-n')
 
         """
-        return self._wordnet.synset(id=self._synset_id)
+        iterable = find_synsets(
+            id=self._synset_id, lexicon_rowids=self._get_declaring_lexicon_ids()
+        )
+        try:
+            return Synset(*next(iterable), _wordnet=self._wordnet)
+        except StopIteration:
+            raise wn.Error(f'no such synset: {self._synset_id}') from None
+
+    def _get_declaring_lexicon_ids(self) -> tuple[int, ...]:
+        # The word and synset of a sense are declared by the sense's
+        # own lexicon or, for senses of a lexicon extension, by a
+        # lexicon it extends; other lexicons (e.g., another version of
+        # the same lexicon) may reuse the same identifiers.
+        lexids = (self._lexid, *get_lexicon_extension_bases(self._lexid))
+        if not self._wordnet._default_mode:
+            selected = self._wordnet._lexicon_ids
+            lexids = tuple(lexid for lexid in lexids if lexid in selected)
+        # NON_ROWID never matches; it keeps the query restricted when
+        # none of the declaring lexicons is selected
+        return lexids or (NON_ROWID,)
 
     def examples(self) -> list[str]:
         """Return the list of examples for the sense."""
